@@ -245,7 +245,7 @@ class Assembled(Part):
         stats['points'] += 1
         rows = [r for r in range(n + m) if r not in skip]
         tol = 2e-4
-        live = [r for r in range(n + m) if r not in islanded_rows]
+        live = list(range(n + m))      # every row, islanded buses included: both accumulation modes must build the same matrix
         if live and np.max(np.abs(J[live] - J2[live])) > 1e-10 * (1.0 + np.max(np.abs(J[live]))):
             r, c = np.unravel_index(np.argmax(np.abs(J[live] - J2[live])), J[live].shape)
             bad('ipadd_modes_differ', f'{label}: in-place and rebuilt accumulation differ by {np.max(np.abs(J[live] - J2[live])):.3e} '
